@@ -456,7 +456,9 @@ class C33(Check):
                             continue
                         got = v.dot(ov)
                         want = np.dot(w, O)
-                        if not np.isclose(got, want, rtol=8 * np.finfo(float).eps * max(1, n), atol=1e-300):
+                        # round-off of a sum is relative to the size of its terms, not of a result they cancel to
+                        if not np.isclose(got, want, rtol=8 * np.finfo(float).eps * max(1, n),
+                                          atol=8 * np.finfo(float).eps * max(1, n) * float(np.dot(np.abs(w), np.abs(O))) + 1e-300):
                             viol.append({'inv': 'I-33-reduce', 'msg': f"{where}: dot = {got!r}, NumPy {want!r}", 'ctx': 'dot'})
                             break
                     else:
